@@ -17,6 +17,11 @@ SAME_CELL = [
     'xs[0] = xs\nprint(xs[0][0][0] === xs)', 'o.k = o\nfor [k2, v2] in o {\n    print(k2)\n}', 'o.k = o\n{..r} := o\nprint(r.k === o)', 'o.k = o\nq := {o..}\nprint(q.k === o)', 'xs[0] = [xs]\nprint(xs[0][0] === xs)',
     'f := fn () {\n    return xs\n}\nxs[0] = f\nprint(xs[0]() === xs)', 'xs[0] += [xs]\nprint(xs[0][2] === xs)', 'xs[1] += o.k\nprint(xs[1])', 'o.k += xs[0]\nprint(o.k)', 'xs[0][0] += xs[0][0]\nprint(xs)',
 ]
+TYPEFN_ROUTES = [
+    'tools := {"measure": "hello"->len}\nprint(tools.measure())', 'tools := {"t": xs->type}\nprint(tools.t())', 'm := "abc"->len\nprint(m())', 'ms := ["abc"->len, o->type]\nprint(ms[0]())\nprint(ms[1]())',
+    'fn ap(g) {\n    return g()\n}\nprint(ap("hé"->len))', 'tools := {"measure": "hello"->len}\nh := tools["measure"]\nprint(h())', 'print(("a"->len)->type())', 'print(xs->type->type())', 'tools := {"p": print}\ntools.p(1)',
+    'tools := {"l": "x"->len}\nprint(tools.l(1))', 'print("abc"->len(1))', 'print(5->len())', 'tools := {"ty": null}\nprint(tools.ty->type())', 'q := {"len": "zz"->len}\nw := {"k": q.len}\nprint(w.k())',
+]
 CYCLIC_PRINT = ['xs[0] = xs\nprint(xs)', 'o.k = o\nprint(o)', 'xs[0] = [xs]\nprint(xs)', 'o.k = [o]\nprint(o)']
 
 def templates(tier, seed=0):
@@ -24,6 +29,7 @@ def templates(tier, seed=0):
     head = ['s := @h0@', 'xs := [[@h10@, 2], [3]]', 'o := {"k": [@h11@], "j": 1}']
     n = len(SAME_CELL)
     ts.append({'name': 'same-cell', 'src': '\n'.join(head + ladder('s', SAME_CELL) + ['print(9)']) + '\n', 'assume': lambda v: [v['h0'] >= 0, v['h0'] <= n]})
+    ts.append({'name': 'typefn-routes', 'src': '\n'.join(head + ladder('s', TYPEFN_ROUTES) + ['print(9)']) + '\n', 'assume': lambda v: [v['h0'] >= 0, v['h0'] <= len(TYPEFN_ROUTES)]})
     ts.append({'name': 'cyclic-print', 'src': '\n'.join(head + ladder('s', CYCLIC_PRINT) + ['print(9)']) + '\n', 'assume': lambda v: [v['h0'] >= 0, v['h0'] < len(CYCLIC_PRINT)]})
     # extreme integers in every arithmetic / index / range position
     ts.append({'name': 'extreme-ints', 'src': 'a := @h0@\nb := @h1@\nxs := [1, 2, 3]\nif @b0@ {\n    print(xs[a])\n} else if @b1@ {\n    print(xs[a:b])\n} else if @b2@ {\n    xs[a:b] = [0]\n} else if @b3@ {\n    xs[a] = b\n} else if @b4@ {\n    print("abc"[a:b])\n} else if @b5@ {\n    print((a / b) % b)\n} else if @b6@ {\n    print("abc"[a])\n} else {\n    print(a * b - a)\n}\n'})
